@@ -9,7 +9,7 @@ mkdir -p out evidence
 ./extract/bin/extract -repo /repo -lean lean/TarsModel/Generated/Consts.lean -fp out/fingerprints.json || true
 cp /repo/go.sum harness/go.sum
 for p in $(cat checks/ready.txt); do cfg=checks/$p.json
-  props=$(python3 -c "import json,sys;c=json.load(open('$cfg'));p=c['lean_props'];print(' '.join(p if isinstance(p,list) else [p]), c['model_exe'])")
+  props=$(python3 -c "import json,sys;c=json.load(open('$cfg'));p=c['lean_props'];m=c['model_exe'];print(' '.join(p if isinstance(p,list) else [p]), ' '.join(m if isinstance(m,list) else [m]))")
   (cd lean && lake build $props) || echo "setup: lean build failed for $cfg"
   for h in $(python3 -c "import json;c=json.load(open('$cfg'));h=c['harness'];print(' '.join(h if isinstance(h,list) else [h]))"); do
     (cd harness && go build -tags verif -o "bin/$h" "./cmd/$h") || echo "setup: harness build failed for $h"
